@@ -142,6 +142,13 @@ PROPS = {
         unit("c15-config", "config", ["config/c15_test.go"], "^TestVerifC15"),
         unit("c15-runnable", ".", MAIN_COMMON + ["main/c19_test.go", "main/c15_test.go"], "^TestVerifC15", engines=["vhook"]),
     ], layers={"quick": ["c15-sources", "c15-robust", "c15-runnable"], "thorough": ["c15-sources", "c15-robust", "c15-runnable"]}),
+    "C14": dict(level="exploration", engine="benum",
+        technique="bounded-exhaustive catalog-entry enumeration through routecmd.build -> route.NewTable with an independent expectation; history variant through the C01 pipeline",
+        level_text="The product of service names, addresses, ports, urlprefix forms, every <=2-subset of 16 option strings and 9 extra-tag shapes (quotes, backslashes, non-ASCII, newlines) is turned into route commands by the real routecmd.build next to a well-formed neighbour and fed to the real route.NewTable: the text must be accepted, the neighbour present, an expressible entry denoted exactly, an inexpressible one absent.",
+        level_note="Expressibility is decided by an independent predicate (name without white space, finite numeric weight, no double quote/newline in tags or options). Tags containing a comma or surrounding white space, and a redirect option without URL, are left open.",
+        units=[
+        unit("c14", "registry/consul", ["consul/c14_test.go"], "^TestVerifC14"),
+    ], layers={"quick": ["c14-registrations"], "thorough": ["c14-registrations"]}),
 }
 
 def layer_unit(pid, layer):
